@@ -90,6 +90,12 @@ struct FL fl(long x) { struct FL s = {x + 0.5f, x}; return s; }
 struct C12 c12(int x) { struct C12 s = {{x, x + 1, x + 2, x + 3, x + 4, x + 5, x + 6, x + 7, x + 8}, x + 9}; return s; }
 struct BIG big(float x) { struct BIG s = {x, x + 1, x + 2, x + 3, x + 4}; return s; }
 struct F3 pass3(struct F3 s) { return s; }
+struct C10 { char c[10]; };
+/* small structs of odd size passed on the stack once the registers are used up (stack slots = size rounded up to 8) */
+long on_stack(long a, long b, long c, long d, long e, long f, struct C10 s, struct F3 t, double d1, double d2, double d3,
+              double d4, double d5, double d6, double d7, double d8, struct F3 u, struct C12 v, struct C10 w) {
+  return a + f + s.c[9] + (long)t.c + (long)d8 + (long)u.a + v.d + w.c[0];
+}
 int main(void) {
   int bad = 0;
   for (int i = 0; i < 12; i++) {
@@ -111,6 +117,9 @@ int main(void) {
     bad += n.a != i || n.e != i + 4;
     bad += o.a != i || o.b != i + 1 || o.c != i + 2;
     f3(i); (void)f4(i); fd(i), df(i);
+    struct C10 p = {{i, 1, 2, 3, 4, 5, 6, 7, 8, i + 1}};
+    bad += on_stack(1, 2, 3, 4, 5, 6, p, a, 1, 2, 3, 4, 5, 6, 7, 8, a, m, p) != 1 + 6 + (i + 1) + (i + 2) + 8 + i + (i + 9) + i;
+    bad += 1 + on_stack(i, 2, 3, 4, 5, 6, p, a, 1, 2, 3, 4, 5, 6, 7, 8, o, m, p) != 1 + i + 6 + (i + 1) + (i + 2) + 8 + i + (i + 9) + i;
   }
   return bad;
 }
@@ -340,14 +349,14 @@ def known_witnesses(ctx, corr):
     if rcg != 0 or sh([os.path.join(d, 'struct_retg')], timeout=30)[0] != 0:
         raise RuntimeError('the struct-return program is wrong (gcc build fails or does not exit 0): ' + eg[-300:])
     if rc != 0:
-        corr.violations.append({'what': 'struct return values: the compiler fails', 'input': STRUCT_RET_PROGRAM,
+        corr.violations.append({'what': 'small structs passed and returned by value: the compiler fails', 'input': STRUCT_RET_PROGRAM,
                                 'expected': 'an executable', 'got': f'rc={rc} {e.strip()[-200:]}'})
     else:
         rc1, o1, e1 = sh([os.path.join(d, 'struct_ret')], timeout=30)
         if rc1 != 0:
             # a wrong VALUE with balanced stacks is C06's matter; a crash (stack corrupted) would be ours: report both here,
             # the program is tiny
-            corr.violations.append({'what': 'struct return values: wrong result or crash', 'input': STRUCT_RET_PROGRAM,
+            corr.violations.append({'what': 'small structs passed and returned by value: wrong result or crash', 'input': STRUCT_RET_PROGRAM,
                                     'expected': 'exit status 0 (as the gcc build)', 'got': f'exit status {rc1}'})
     # nine long double operands nested to the right: the x87 register stack overflows (NaN; gcc: 9.0)
     p = os.path.join(d, 'deep.c')
@@ -428,6 +437,19 @@ def correspond(ctx, corr):
 def search(ctx, broken, corr):
     """a proof or the tie broke: look for a concrete program on which the implementation leaves residue"""
     import c20probe
+    # the balance assertion of the code generator itself (anchor: emit_text `assert(depth == 0)`) fired on an input of the tie
+    for b in broken or []:
+        w = b.get('what') if isinstance(b, dict) else None
+        if isinstance(w, dict) and "Assertion `depth == 0'" in str(w.get('impl', '')) and isinstance(w.get('input'), str):
+            src = w['input']
+            if '\n' not in src:
+                try:
+                    src = open(os.path.join(ctx.take_snapshot(False), src)).read()
+                except OSError:
+                    pass
+            return {'what': 'the push/pop accounting of the code generator is unbalanced on this program: assert(depth == 0) in '
+                            'emit_text fails (the compiler aborts)', 'input': src,
+                    'expected': 'assembly (depth returns to 0 after every function body: C20_assert)', 'got': str(w.get('impl'))[:300]}
     vio = run_probes(ctx, Corr(), c20probe.all_cases(), 'search')
     if vio:
         return vio[0]
